@@ -99,6 +99,23 @@ CLAIMS = {
             "from the 2003 grammar; each 2008-only construct reachable from Program in 2008; reachable matchers resolve their names; 2008 "
             "matchers that delegate try the 2003 form first, re-implementing ones include the 2003 keyword language; no shared mutable class "
             "state; the factory always relinks. Not decided: text equality of the two parsers' output.", "DESIGN.md §4 C17"),
+    "C01": ("abstract interpretation of match return shapes (following engine delegation with bound class arguments) vs. printer index usage",
+            "Decides necessary conditions of the round trip: every class that can build a node resolves a printer; the tuple arities every match "
+            "can return are accepted by the resolved init and agree with the constant indices, format conversion counts, unpack counts and "
+            "length guards of the resolved printer (310 classes); every element that can hold a node or input text is read by the printer "
+            "(243 classes). Not decided: equality of trees/text after re-parsing.", "DESIGN.md §4 C01"),
+    "C02": ("path-sensitive may-taint (placeholder text must pass the inverse map before reaching a constructor); case-folding lint on leaf flows; ownership/shape lints",
+            "Decides: literal-bearing leaves store input text without case folding; in the 52 functions that tokenise a line no child node is "
+            "built from placeholder-bearing text; Program.match returns what it collected (1 known finding); no reader error becomes "
+            "end-of-input (1 known finding); all 118 line-level classes print label and construct name through StmtBase.tofortran, which "
+            "includes label/name/text on every path; the inverse map is bounded and ordered; give-backs are reversed; splitquote never "
+            "folds literals; arity/element coverage shared with C01; consumed nodes kept or restored. Not decided: token-sequence equality.",
+            "DESIGN.md §4 C02"),
+    "C19": ("prefix viability of printed keywords on the sre parse tree of each class's matcher; attribute-protocol and purity lints",
+            "Decides over fparser.one's statement classes: the literal keyword prefix each printer emits is a viable prefix of the class's own "
+            "match regex; every block statement names an END class whose regex accepts the END line it prints; blocks print all content; "
+            "printers read only assigned attributes; analyze() never mutates a printed attribute in place. Not decided: equality of "
+            "regenerated statements.", "DESIGN.md §4 C19"),
 }
 
 NA = {
